@@ -53,8 +53,17 @@ fn sends(log: &[crate::world::BankEv]) -> Vec<Leg> {
             }
         }
     }
-    v.sort();
-    v
+    net(v)
+}
+
+/// transfers netted per (from, to, denom): what each party ends up with, however many messages
+/// carry it
+fn net(v: Vec<Leg>) -> Vec<Leg> {
+    let mut m: std::collections::BTreeMap<(String, String, String), u128> = std::collections::BTreeMap::new();
+    for (f, t, d, a) in v {
+        *m.entry((f, t, d)).or_default() += a;
+    }
+    m.into_iter().filter(|(_, a)| *a > 0).map(|((f, t, d), a)| (f, t, d, a)).collect()
 }
 
 fn jlegs(v: &[Leg], w: &World) -> serde_json::Value {
@@ -315,7 +324,7 @@ impl Monitor for C11 {
                         }
                     }
                 }
-                exp.sort();
+                let exp = net(exp);
                 let act = sends(s.out.log());
                 // net taken from the creator = reward + fee (refunds of expired own farms aside)
                 if act != exp {
